@@ -32,6 +32,8 @@ type c19Case struct {
 	Mismatch  string `json:"mismatch,omitempty"`
 	// Naming: NameArguments on (the DefaultOpts combination).
 	Naming bool `json:"naming,omitempty"`
+	// Funcs: length of the call chain (0 = 15..30).
+	Funcs int `json:"funcs,omitempty"`
 }
 
 type builtProg struct {
@@ -53,8 +55,12 @@ func goEnvRoot(tool string) string {
 func buildAndCrash(c *c19Case) (*builtProg, error) {
 	rr := core.NewRand(c.Seed, 19, uint64(c.Idx))
 	// every other program without a source mismatch is spread over two source files
-	p := gen.GenProgFiles(rr, 15+rr.Intn(16), c.Mismatch == "" && c.Idx%2 == 1)
-	dir := filepath.Join(os.Getenv("VERIF_WORK"), fmt.Sprintf("prog-%s-%d-%s-%v", c.Toolchain, c.Idx, c.Mismatch, c.Naming))
+	nf := 15 + rr.Intn(16)
+	if c.Funcs != 0 {
+		nf = c.Funcs
+	}
+	p := gen.GenProgFiles(rr, nf, c.Mismatch == "" && c.Idx%2 == 1)
+	dir := filepath.Join(os.Getenv("VERIF_WORK"), fmt.Sprintf("prog-%s-%d-%s-%v-%d", c.Toolchain, c.Idx, c.Mismatch, c.Naming, c.Funcs))
 	_ = os.RemoveAll(dir)
 	if err := os.MkdirAll(dir, 0o755); err != nil {
 		return nil, err
